@@ -86,6 +86,20 @@ Theorem C05_oracle_is_the_property : forall l t reqs os,
 Proof. exact c05_ok_iff. Qed.
 Print Assumptions C05_oracle_is_the_property.
 
+(* A PROPFAIL names a clause that does fail: whenever the per-request checker
+   returns clause c, the statement of c ([entry_clause_prop]) is false of that
+   request's observation; and any reported clause means the property's
+   statement is false of the connection's observation. *)
+Theorem C05_propfail_names_a_failing_clause : forall ctls q f c,
+  entry_fail ctls q f = Some c -> ~ entry_clause_prop c ctls q f.
+Proof. exact entry_fail_names_failing_clause. Qed.
+Print Assumptions C05_propfail_names_a_failing_clause.
+
+Theorem C05_propfail_is_a_violation : forall l t reqs os c,
+  c05_fail l t reqs os = Some c -> ~ C05_good l t reqs os.
+Proof. exact not_good_of_fail. Qed.
+Print Assumptions C05_propfail_is_a_violation.
+
 Theorem C05_model_satisfies_oracle : forall l t reqs,
   forallb has_host reqs = true -> forallb no_msecure reqs = true -> C05_good l t reqs (run true l t reqs).
 Proof. exact fixed_good. Qed.
@@ -118,3 +132,25 @@ Example C05_example_hypotheses_met :
   In (Seen 2 (mkF Https HUrl true true 0 UpTls (Some 200) None None))
      (run true LShaped TunTls [mkInner FOrigin false MInsecure; mkInner FAbsHttp false MNone]).
 Proof. split; [reflexivity|]. vm_compute. auto. Qed.
+
+(* hypotheses of the cleartext-tunnel theorem are met (modifier of request 1
+   calls MarkInsecure, which changes nothing there) *)
+Example C05_example_plain_tunnel :
+  forallb no_msecure [mkInner FAbsHttp false MInsecure; mkInner FOrigin true MValues] = true /\
+  run true LShaped TunPlain [mkInner FAbsHttp false MInsecure; mkInner FOrigin true MValues]
+  = [Seen 0 (mkF Http HAuth false false 0 UpNone (Some 200) None None);
+     Seen 1 (mkF Http HUrl false false 0 UpPlain (Some 200) None None);
+     Seen 2 (mkF Http HHeader false false 0 UpNone None (Some ShapedRaw) (Some true))].
+Proof. split; vm_compute; reflexivity. Qed.
+
+(* guards of C05_model_satisfies_oracle / the host clause are met *)
+Example C05_example_guards :
+  forallb has_host [mkInner FOrigin false MSecure; mkInner FAbsHttps false MNone] = true /\
+  forallb no_msecure [mkInner FOrigin false MInsecure; mkInner FAbsHttps true MValues] = true.
+Proof. split; reflexivity. Qed.
+
+(* clause attribution: request 2 of the pinned commit has no TLS state *)
+Example C05_example_propfail :
+  entry_fail true (mkInner FOrigin false MNone)
+             (mkF Https HHeader true false 0 UpTls (Some 200) None None) = Some CTlsState.
+Proof. reflexivity. Qed.
